@@ -245,7 +245,8 @@ def provided_dict(job):
     return {k: v for k, v in job["provided"]}
 
 
-def run_job(job, *, runner=None, event_processors=None, max_concurrency=None, cache=None):
+def run_job(job, *, runner=None, event_processors=None, max_concurrency=None, cache=None, on_missing=None,
+            error_handling="continue"):
     """Execute job = {id, prog, provided, mode, select} on the real code.
     Returns the observable record in the shape of Predict!Observe, plus the raw pieces."""
     from hypergraph.exceptions import InfiniteLoopError
@@ -254,21 +255,40 @@ def run_job(job, *, runner=None, event_processors=None, max_concurrency=None, ca
     with warnings.catch_warnings():
         warnings.simplefilter("ignore")
         g = build_graph(rt, job["prog"])
-    kwargs = dict(error_handling="continue", max_iterations=job["prog"]["max_iter"], on_internal_override="ignore")
+    kwargs = dict(error_handling=error_handling, max_iterations=job["prog"]["max_iter"], on_internal_override="ignore")
+    if on_missing is not None:
+        kwargs["on_missing"] = on_missing
     if job["select"] != IR.UNSET:
         kwargs["select"] = "**" if job["select"] == ["**"] else list(job["select"])
     if event_processors is not None:
         kwargs["event_processors"] = event_processors
     values = provided_dict(job)
-    with warnings.catch_warnings():
-        warnings.simplefilter("ignore")
-        if job["mode"] == "sync":
-            r = (runner or SyncRunner(cache=cache)).run(g, values, **kwargs)
-        else:
-            if max_concurrency is not None:
-                kwargs["max_concurrency"] = max_concurrency
-            r = asyncio.run((runner or AsyncRunner(cache=cache)).run(g, values, **kwargs))
-    return observe(rt, r), rt, r
+    with warnings.catch_warnings(record=True) as wlist:
+        warnings.simplefilter("always")
+        try:
+            if job["mode"] == "sync":
+                r = (runner or SyncRunner(cache=cache)).run(g, values, **kwargs)
+            else:
+                if max_concurrency is not None:
+                    kwargs["max_concurrency"] = max_concurrency
+                r = asyncio.run((runner or AsyncRunner(cache=cache)).run(g, values, **kwargs))
+        except Exception as e:  # noqa: BLE001
+            if not rt.log and not isinstance(e, Boom):
+                raise            # rejected before anything ran: classified by the caller
+            hit = [(p, i) for p, i, x in rt.raised if x is e]
+            obs = {"status": "raised", "values": {}, "pause": {"path": IR.NONE, "key": IR.NONE, "value": IR.NONE},
+                   "err": {"path": hit[0][0], "kind": "body"} if hit else {"path": IR.NONE, "kind": "other:" + type(e).__name__ + ":" + str(e)[:200]},
+                   "calls": _calls(rt), "ends": list(rt.ends), "warnings": [str(w.message)[:200] for w in wlist]}
+            return obs, rt, None
+    obs = observe(rt, r)
+    obs["warnings"] = [str(w.message)[:200] for w in wlist if issubclass(w.category, UserWarning)]
+    return obs, rt, r
+
+
+def _calls(rt):
+    return [{"path": c["path"], "frame": c["path"].rsplit("/", 1)[0] if "/" in c["path"] else "",
+             "node": c["path"].rsplit("/", 1)[-1], "step": 0, "idx": c["idx"], "args": c["args"],
+             "dec": c["dec"]} for c in rt.log]
 
 
 def observe(rt, r):
@@ -290,8 +310,25 @@ def observe(rt, r):
         "values": {k: IR.canon(v) for k, v in r.values.items()},
         "err": err,
         "pause": pause,
-        "calls": [{"path": c["path"], "frame": c["path"].rsplit("/", 1)[0] if "/" in c["path"] else "",
-                   "node": c["path"].rsplit("/", 1)[-1], "step": 0, "idx": c["idx"], "args": c["args"],
-                   "dec": c["dec"]} for c in rt.log],
+        "calls": _calls(rt),
         "ends": list(rt.ends),
     }
+
+
+def suggest_inputs(prog, rng=None, optional_p=0.5):
+    """Provided values that the implementation's own input spec asks for (engine-level checks are
+    not about the input contract: C08 is): required + some optional + the parameters of the first
+    listed entry point of a cyclic graph."""
+    rt = Runtime(prog)
+    with warnings.catch_warnings():
+        warnings.simplefilter("ignore")
+        g = build_graph(rt, prog)
+    spec = g.inputs
+    names = list(spec.required)
+    for p in spec.optional:
+        if rng is not None and rng.random() < optional_p and p not in dict(map(tuple, prog["bound"])):
+            names.append(p)
+    if spec.entrypoints:
+        first = sorted(spec.entrypoints)[0] if rng is None else rng.choice(sorted(spec.entrypoints))
+        names += [p for p in spec.entrypoints[first] if p not in names]
+    return [[p, f"in.{p}"] for p in names]
